@@ -86,7 +86,8 @@ CLAIMS = {
              "parser never panics or runs out of fuel - C02 - and the fuel of the collection loop suffices), index_never_panics_all, "
              "analysis_total_all. Stack overflow, salsa and rowan internals are not modelled (nesting depth is measured up to 1000, not proved); record "
              "ids carried inside Ty.record values are not tracked by the invariant (they are [id]! lookups, not panic values, in "
-             "the model). Include cycles are allowed (the property excludes them; the repaired code handles them).",
+             "the model). Include cycles are allowed (the property excludes them; the repaired code handles them). Props/C03Sat: "
+             "bits_literal_width (the width computed for a bits literal saturates below 2^64 and equals the plain sum whenever that is below 2^64).",
         tech="Lean 4 proof (invariant preserved by every one of ~100 indexer functions, Hoare-style over StateT/Except) + "
              "differential correspondence + exhaustive-offset sweep on the implementation",
         ref="DESIGN.md §7 C03, §12"),
@@ -116,6 +117,9 @@ CLAIMS = {
              "use_goes_to_declaration_root: no residual hypothesis (LiveInv through the whole indexer) for identifier initialisers of "
              "fields in class / def bodies of the root file; the general site theorems keep hlater. Still the "
              "oracle, not a theorem: that the generator's expected declaration is the one findLocal picks. "
+             "Props/C05Files, C05Foreach, C05Parent widen the capstone: every file reached through top-level includes, `let` / defvar / dump sites at any "
+             "depth of top-level foreach bodies, argument values of any parent class reference (positional or named), and foreach_var_resolves / "
+             "foreach_var_not_resolved_after (the iteration variable resolves to its own declaration inside the loop and to nothing behind it). "
              "Known findings: body `let` overrides create a second field symbol (2 signatures).",
         tech="Lean 4 proof (algebraic laws of the scope stack + Hoare triples per block construct) + differential correspondence + generator oracle",
         ref="DESIGN.md §7 C05, §12.7"),
@@ -140,7 +144,10 @@ CLAIMS = {
              "core_no_diagnostics_partial for a decidable core judgement: classes and defs with parent lists, template parameters with "
              "literal / earlier-parameter defaults, positional arguments, typed fields initialised by literals, fields in scope "
              "(own, inherited) or parameters, `let` with and without bit ranges (coreStatementList3/4; two LLVM-style 9-10 statement "
-             "examples checked end to end); class values, defvar, def values and named arguments are beyond it (the oracle). "
+             "examples checked end to end), defvars at top level and in bodies with uses (5), list<T> fields with literal lists (6), fields of "
+             "class type (7), each with its own decidable predicate and an end-to-end source; class values, def names as values and named "
+             "arguments are beyond it (the oracle). Props/C13If: xIf_result (the result of !if is the then type, the else type or their "
+             "common type, and `unknown` only with a missing operand type or together with the 'inconsistent types' report). "
              "letItem_unchecked proves the known finding (top-level `let f = v in` checks neither field name nor type).",
         tech="Lean 4 proof (decision logic stated outright: iff-characterisations) + differential correspondence + fault-seeding oracle audited by llvm-tblgen",
         ref="DESIGN.md §7 C13, §12.7"),
@@ -188,7 +195,8 @@ CLAIMS = {
         note="End to end: inlay_hint_end_to_end (every hint of an answer is the parameter name / field type of the symbol registered at "
              "the reference it sits on, inside the requested range), hover_signature_of_declared_type(+_templateArg, _defvar): the "
              "type shown for a field / template argument / defvar is the one its declaration was indexed with (hypothesis: later "
-             "indexing only appends to the arenas, ArenaKeep). Trailing comment of the previous code line directly above a declaration: either answer accepted (ambiguous in the "
+             "indexing only appends to the arenas, ArenaKeep; discharged in the ..._built forms for fields, template parameters and body defvars of "
+             "root-file classes and defs of every built workspace). Trailing comment of the previous code line directly above a declaration: either answer accepted (ambiguous in the "
              "property text).",
         tech="Lean 4 proof (handler specs, refinement of the fast position map to its specification) + differential correspondence + generator oracle",
         ref="DESIGN.md §7 C19, §12.7"),
